@@ -1,7 +1,7 @@
 /-
   C05 — Assignment through views is deep and writes exactly the viewed elements.
 
-  Property theorems only; helper lemmas live in ElemOrder / StoreLemmas.
+  Property theorems only; helper lemmas live in ElemOrder / StoreLemmas / SeqLemmas / RowsLemmas.
   Shape of every statement: under the property's quantifier (well-formed views of equal extents, destination
   injective, destination and source element-disjoint) the transcribed loop returns a memory `m'` (no assertion
   fires) with  m'(dst[idx]) = m(src[idx])  at every index tuple and  m' = m  at every address that is not an
@@ -10,6 +10,8 @@
 -/
 import MultiProofs.StoreLemmas
 import MultiProofs.Inj
+import MultiProofs.SeqLemmas
+import MultiProofs.RowsLemmas
 
 namespace Multi
 namespace C05
@@ -186,6 +188,62 @@ theorem assign_exact_reachable (bd bs : Int) (ed es : List Ext) (hed : ∀ e ∈
   obtain ⟨hs, _⟩ := reachable_wf_injective bs es hes src ds hrs
   exact assign_exact dst src m hd hs hne hext hinj hdis
 
+/-- D ≥ 2: `v = {row₀, row₁, …}` (initializer list of `array<T, D-1>`): element `(first+k, rest)` of the view receives row k's element at `rest`; nothing else changes -/
+theorem assign_rows_exact (v : View) (rows : List (List α)) (m : Mem α) (hv : v.lay.WF) (h2 : 2 ≤ v.lay.length)
+    (hinj : v.Injective) (hlen : (rows.length : Int) = v.size)
+    (hrow : ∀ r ∈ rows, r.length = (boxIndices v.exts.tail).length) :
+    ∃ m', v.assignRows rows m = some m' ∧ rowsVal v m' = rows ∧
+      (∀ (k : Nat) (hk : k < rows.length) (j : Nat) (hj : j < (boxIndices v.exts.tail).length),
+        m' (v.addr ((v.ext.first + Int.ofNat k) :: (boxIndices v.exts.tail)[j])) =
+          (rows[k])[j]'(by rw [hrow _ (List.getElem_mem hk)]; exact hj)) ∧
+      (∀ a, ¬ v.InImage a → m' a = m a) := by
+  obtain ⟨d, d1, sub, hl⟩ : ∃ d d1 sub, v.lay = d :: d1 :: sub := by
+    cases hl : v.lay with
+    | nil => simp [hl] at h2
+    | cons d l => cases l with
+      | nil => simp [hl] at h2
+      | cons d1 sub => exact ⟨d, d1, sub, rfl⟩
+  have hne : v.lay ≠ [] := by rw [hl]; simp
+  obtain ⟨m', e1, e2, e3, e4⟩ := stepLoop_all v hv hne hinj (fun r x m => (ElemRange.ofView r).assignVals x m)
+    (by
+      intro k r m _ _ _
+      have : (v.rowAt k).lay = d1 :: sub := by simp [View.rowAt, View.begin', hl, ArrIt.add, ArrIt.deref]
+      simp only [View.writeRow, this])
+    rows m hlen hrow
+  refine ⟨m', ?_, e2, fun k hk j hj => e3 k hk j hj _, e4⟩
+  simp only [View.assignRows, hl, hlen, if_true]
+  rw [rowsLoop_eq_stepLoop]; exact e1
+
+/-- D = 2 from a range of ranges (`std::vector<std::vector<T>>`) -/
+theorem assign_range_rows_exact (v : View) (rows : List (List α)) (m : Mem α) (hv : v.lay.WF) (h2 : v.lay.length = 2)
+    (hinj : v.Injective) (hlen : (rows.length : Int) = v.size)
+    (hrow : ∀ r ∈ rows, r.length = (boxIndices v.exts.tail).length) :
+    ∃ m', v.assignRangeRows rows m = some m' ∧ rowsVal v m' = rows ∧
+      (∀ (k : Nat) (hk : k < rows.length) (j : Nat) (hj : j < (boxIndices v.exts.tail).length),
+        m' (v.addr ((v.ext.first + Int.ofNat k) :: (boxIndices v.exts.tail)[j])) =
+          (rows[k])[j]'(by rw [hrow _ (List.getElem_mem hk)]; exact hj)) ∧
+      (∀ a, ¬ v.InImage a → m' a = m a) := by
+  obtain ⟨d, d1, hl⟩ : ∃ d d1, v.lay = [d, d1] := by
+    cases hl : v.lay with
+    | nil => simp [hl] at h2
+    | cons d l => cases l with
+      | nil => simp [hl] at h2
+      | cons d1 sub => cases sub with
+        | nil => exact ⟨d, d1, rfl⟩
+        | cons _ _ => simp [hl] at h2
+  have hne : v.lay ≠ [] := by rw [hl]; simp
+  have hd1 : d1.WF := hv d1 (by rw [hl]; simp)
+  obtain ⟨m', e1, e2, e3, e4⟩ := stepLoop_all v hv hne hinj (fun r x m => r.assignVals1 x m)
+    (by
+      intro k r m h0 h1 hr
+      have hlay : (v.rowAt k).lay = [d1] := by simp [View.rowAt, View.begin', hl, ArrIt.add, ArrIt.deref]
+      obtain ⟨_, _, hcells⟩ := rowAt_props hv hne h0 h1
+      exact assignVals1_eq_writeRow (v.rowAt k) d1 hlay hd1 r m (by rw [hcells, hr]; simp [rowCells]))
+    rows m hlen hrow
+  refine ⟨m', ?_, e2, fun k hk j hj => e3 k hk j hj _, e4⟩
+  simp only [View.assignRangeRows, hl, hlen, if_true]
+  rw [rangeRowsLoop_eq_stepLoop]; exact e1
+
 /-- 0-D assignment writes the one element -/
 theorem assign0_exact (dst : View) (x : α) (m : Mem α) :
     (dst.assign0 x m) dst.base = x ∧ ∀ a, a ≠ dst.base → (dst.assign0 x m) a = m a :=
@@ -265,6 +323,28 @@ example : ∃ (bd bs : Int) (es : List Ext), (∀ e ∈ es, e.first ≤ e.last) 
     rcases he with rfl | rfl <;> decide
   · have e : (⟨0, Layout.ofExts [⟨1, 3⟩, ⟨0, 3⟩]⟩ : View).exts = [⟨1, 3⟩, ⟨0, 3⟩] := by decide +kernel
     rw [e]; simp [InBox]
+
+/-- `assign_rows_exact` / `assign_range_rows_exact`: a 2×3 array and two rows of three values -/
+example : ∃ (v : View) (rows : List (List Nat)), v.lay.WF ∧ 2 ≤ v.lay.length ∧ v.lay.length = 2 ∧ v.Injective ∧
+    (rows.length : Int) = v.size ∧ (∀ r ∈ rows, r.length = (boxIndices v.exts.tail).length) := by
+  refine ⟨⟨0, [⟨3, 0, 6⟩, ⟨1, 0, 3⟩]⟩, [[1, 2, 3], [4, 5, 6]], ?_, by decide, rfl, ?_, by decide +kernel, ?_⟩
+  · intro d hd
+    simp only [List.mem_cons, List.not_mem_nil, or_false] at hd
+    rcases hd with rfl | rfl
+    · exact Or.inr ⟨by decide, by decide, ⟨2, by decide⟩, ⟨0, by decide⟩⟩
+    · exact Or.inr ⟨by decide, by decide, ⟨3, by decide⟩, ⟨0, by decide⟩⟩
+  · intro i j hi hj h
+    have e : (⟨0, [⟨3, 0, 6⟩, ⟨1, 0, 3⟩]⟩ : View).exts = [⟨0, 2⟩, ⟨0, 3⟩] := by decide +kernel
+    rw [e] at hi hj
+    obtain ⟨a, b, rfl, _, _, _, _⟩ := inBox_two hi
+    obtain ⟨a', b', rfl, _, _, _, _⟩ := inBox_two hj
+    simp only [addr_eq, Layout.off] at h
+    simp only [List.cons.injEq, and_true]
+    constructor <;> omega
+  · have e : (boxIndices (⟨0, [⟨3, 0, 6⟩, ⟨1, 0, 3⟩]⟩ : View).exts.tail).length = 3 := by decide +kernel
+    intro r hr
+    simp only [List.mem_cons, List.not_mem_nil, or_false] at hr
+    rcases hr with rfl | rfl <;> rw [e] <;> rfl
 
 end C05
 end Multi
